@@ -109,9 +109,15 @@ def digitword(key, unicode=True):
     return lab
 
 
+def fold_plain(s):
+    return re.sub(r"[\W_]", "", s).lower()
+
+
 def name_ok_for_key(name, key):
-    """fold(name without trailing underscores) == fold(key with the leading digit spelled out)"""
-    return fold(name.rstrip("_")) == fold(digitword(key))
+    """fold(name without trailing underscores) == fold(key with the leading digit spelled out); with or without
+    transliteration (without it, non-word characters are dropped and nothing else changes)"""
+    n = name.rstrip("_")
+    return fold(n) == fold(digitword(key)) or fold_plain(n) == fold_plain(digitword(key, unicode=False))
 
 
 def module_imported_names(tree):
